@@ -8,7 +8,13 @@ non-string key somewhere; no list / dict left at any depth; frozen (FrozenInstan
 equal-hash to a second build from equal parameters; unequal to the same parameters on another type; for
 every pickle protocol the copy is equal, has the same hash, cache_key and dependencies, has
 `_results_map`/`context`/`result_meta` = None although the original carried some, and has again what
-`post_init` derives (also on nested tasks); the dependency search accepts the normal form."""
+`post_init` derives (also on nested tasks); the dependency search accepts the normal form.
+Scalar-subclass instances (`class Celsius(float)`, str / int subclasses, numpy.float64 / numpy.str_) and str-subclass dict
+keys ((str, Enum) / StrEnum members, a plain str subclass, numpy.str_) are part of the value grammar (paramgen 'sub', 'ks',
+'ke') at every depth: they are supported values (immutable_param_value accepts them), so construction must succeed and
+everything above holds for them; in addition (monitor-only, the model is given the base scalar / the plain str): the
+normalised dict still answers d[key] for every key it was given, and the task is equal to - same hash, same cache_key, also
+after pickling - the task built from the plain values they are == to."""
 import collections
 import dataclasses
 import json
@@ -25,7 +31,35 @@ RULE = ('distinct generated constructor calls that either contain a list or dict
 OTHER_TYPE = {('ptasks', 'Leaf'): ('ptasks2', 'Leaf'), ('ptasks2', 'Leaf'): ('ptasks', 'Leaf'), ('ptasks', 'Box'): ('ptasks2', 'Box'),
               ('ptasks2', 'Box'): ('ptasks', 'Box'), ('ptasks', 'Exp'): ('ptasks', 'Experiment'), ('ptasks', 'Experiment'): ('ptasks', 'Exp'),
               ('ptasks2', 'Exp'): ('ptasks', 'Exp'), ('ptasks', 'WithPost'): ('ptasks', 'NoCache'), ('ptasks', 'NoCache'): ('ptasks', 'AltT'),
-              ('ptasks', 'AltT'): ('ptasks', 'WithPost')}
+              ('ptasks', 'AltT'): ('ptasks', 'WithPost'), ('ptasks', 'Étude'): ('ptasks2', 'Étude'),
+              ('ptasks2', 'Étude'): ('ptasks', 'Étude'), ('ptasks', 'Archive'): ('ptasks', 'Exp')}
+
+
+def key_lookup_alarms(spec, value, where='parameter'):
+    """normalisation changes container types only: every dict of the constructor call is, at the same position of the
+    constructed task, a mapping of the same size that answers d[key] for each key OBJECT it was given"""
+    out = []
+    t = spec[0]
+    try:
+        if t in ('list', 'tuple'):
+            if len(value) == len(spec[1]):
+                for i, s in enumerate(spec[1]):
+                    out += key_lookup_alarms(s, value[i], where + '[%d]' % i)
+        elif t in ('dict', 'fdict'):
+            if len(value) != len(spec[1]):
+                out.append(f'normalised dict {where} has {len(value)} entries, {len(spec[1])} were given')
+            for k, s in spec[1]:
+                ko = pg.key_obj(k)
+                if ko not in value:
+                    out.append(f'normalised dict no longer answers d[key] for a key it was given: {ko!r} at {where}; its keys are now {list(value)!r}'[:300])
+                else:
+                    out += key_lookup_alarms(s, value[ko], where + '[%r]' % (pg.key_str(k),))
+        elif t == 'task':
+            for f, s in spec[3]:
+                out += key_lookup_alarms(s, getattr(value, f), where + '.' + f if where != 'parameter' else f)
+    except Exception as e:
+        out.append(f'reading the normalised parameter at {where} raised {type(e).__name__}: {e}'[:200])
+    return out
 
 
 def all_tasks_inside(t):
@@ -76,6 +110,7 @@ def _alarms(spec, real, protos, full):
     for f in fs:
         if not pr.only_allowed_types(getattr(t, f.name)):
             out.append(f'field {f.name} still holds a list, dict or unsupported value after construction: {pg.show(getattr(t, f.name))[:80]}')
+    out += key_lookup_alarms(spec, t)
     # frozen
     for name, val in ((fs[0].name, 1), ('brand_new_attribute', 1)):
         try:
@@ -103,6 +138,19 @@ def _alarms(spec, real, protos, full):
             out.append('equal tasks have different hashes')
         if len({t, u}) != 1 or {t: 1}.get(u) != 1:
             out.append('equal tasks are not interchangeable as set/dict keys')
+    # the same call with every scalar-subclass instance / str-subclass dict key replaced by the plain value it is == to
+    plain = None
+    if pr.has_subs(spec):
+        tag = 'built from the plain values that its scalar-subclass parameters / str-subclass dict keys are == to'
+        plain = pg.build(pr.respell(spec, random.Random(len(real['nf']) + 2), subs=True))
+        if not (plain == t and t == plain and not (plain != t)):
+            out.append('task is not equal to the task ' + tag)
+        elif hash(plain) != h:
+            out.append('task has another hash than the (equal) task ' + tag)
+        elif len({t, plain}) != 1 or {t: 1}.get(plain) != 1 or {plain: 1}.get(t) != 1:
+            out.append('task is not interchangeable as set member / dict key with the (equal) task ' + tag)
+        if plain.cache_key != t.cache_key:
+            out.append('task has another cache_key than the task ' + tag)
     # parameters that are == in Python but spelled differently for JSON (and get another cache key): dict items
     # in another insertion order at any depth; numerically equal scalars of another type; mixin enum member vs value
     rl = random.Random(len(real['nf']) + 1)
@@ -148,7 +196,7 @@ def _alarms(spec, real, protos, full):
         x._set_results_map({'some': 'MAP-MARKER-5c1'})
         x._set_result_meta(ResultMeta(start=None, duration=None))
     try:
-        for proto in protos:
+        for proto in pr.usable_protos(spec, protos):
             try:
                 blob = pickle.dumps(t, protocol=proto)
                 u = pickle.loads(blob)
@@ -161,6 +209,11 @@ def _alarms(spec, real, protos, full):
                 out.append(f'the pickle (protocol {proto}) of a task carries its results map with it')
             if not (u == t and hash(u) == h):
                 out.append(f'pickled copy (protocol {proto}) is not equal / has another hash')
+            if plain is not None and not (u == plain and plain == u and hash(u) == hash(plain)):
+                out.append(f'pickled copy (protocol {proto}) is not equal to / hashes unlike the task built from the plain values '
+                           'that the scalar-subclass parameters / str-subclass dict keys are == to')
+            for a in key_lookup_alarms(spec, u):
+                out.append(f'pickled copy (protocol {proto}): ' + a)
             if pg.show(u) != real['nf']:
                 out.append(f'pickled copy (protocol {proto}) has another normal form (types changed)')
             if getattr(u, 'cache_key', None) != t.cache_key:
@@ -208,7 +261,7 @@ def xproc_items(specs, protos):
                 x._set_results_map({'some': 'map'})
                 x._set_result_meta(ResultMeta(start=None, duration=None))
             items.append(dict(spec=s, key=t.cache_key, deps=[pg.show(d) for d in get_direct_dependencies(t)],
-                              blobs=[(p, pickle.dumps(t, protocol=p)) for p in protos]))
+                              blobs=[(p, pickle.dumps(t, protocol=p)) for p in pr.usable_protos(s, protos)]))
         except Exception as e:
             # the harness must not crash on what the code under test does: an accepted constructor call whose task
             # cannot be hashed / searched for dependencies / pickled is a finding about the code, not about the harness
@@ -386,7 +439,8 @@ def run(ctx):
     nontrivial = set()
     samples = []
     while True:
-        specs = []
+        specs = list(pg.numpy_probes())     # fixed constructor calls with numpy.float64 / numpy.str_ parameters
+        dist['numpy_scalar_probes'] = len(specs)
         for i in range(n):
             mal = rnd.choice([0.0, 0.0, 0.03, 0.1])
             g = pg.Gen(rnd, max_depth=rnd.randrange(1, depth + 1), malformed=mal)
@@ -405,12 +459,16 @@ def run(ctx):
             dist['nodes:%s' % ('1-5' if st['nodes'] <= 5 else '6-20' if st['nodes'] <= 20 else '21+')] += 1
             if st['lists'] or st['dicts']:
                 dist['needs_normalising'] += 1
+            if st['subs']:
+                dist['with_scalar_subclass_instance'] += 1
+            if st['skeys']:
+                dist['with_str_subclass_dict_key'] += 1
             for d in pr.compare(s, r, m):
                 dis.append(dict(spec=s, diff=d))
             for a in alarms(s, r, protos):
                 viol.append(dict(what=a, replay=dict(kind='tree', spec=s)))
             if r['status'] == 'ok':
-                dist['pickle_round_trips'] += len(protos)
+                dist['pickle_round_trips'] += len(pr.usable_protos(s, protos))
                 if r['pyeq_collapse']:
                     dist['deps_python_equal_but_type_distinct'] += 1
                 if st['depth'] >= 2 and (st['tasks'] >= 2 or st['lists'] + st['dicts'] >= 1):
@@ -474,6 +532,12 @@ def run(ctx):
         disagreements=dis[:50], distribution=dict(dist),
         assumptions=['NaN is not generated', 'ordering (<) between tasks is not part of the property and is not checked',
                      'pickle is the identity on parameter values (checked here for every protocol by type-exact comparison of the copy)',
-                     "post_init is a deterministic function of the task's fields (ptasks.WithPost)"],
+                     "post_init is a deterministic function of the task's fields (ptasks.WithPost)",
+                     'tasks of (or holding a task of) a type whose name has a non-ASCII letter are pickled with protocols >= 3 only (CPython cannot '
+                     'write a non-ASCII class reference with protocols 0-2)',
+                     'numpy scalars (numpy.float64, numpy.str_) are exercised in fixed constructor calls only (paramgen.numpy_probes), never where a task of '
+                     'the same type holds a tuple in the same field: numpy scalars compare element-wise with sequences, so == between two such tasks (e.g. in '
+                     "run_tasks' cycle check) raises ValueError or is true for a 1-tuple - numpy's semantics; numpy.str_ values do not end in NUL (numpy strips "
+                     'trailing NULs when it unpickles its own scalar)'],
         explanation=f'{evaluations} constructor calls ({dist["status:err TaskError"]} rejected) in {time.time() - t0:.1f}s; '
                     f'{dist["pickle_round_trips"]} pickle round trips over protocols {protos}.')
